@@ -37,8 +37,8 @@ fn own_instance() -> InstanceInformation {
 /// two-label owners, DNS-SD meta-query PTR, a record at the root), 4 kind 1 plus 40 hosts x (A, SRV, PTR)
 pub fn make_store(kind: u8) -> Store {
     let mut s = ResourceRecordManager::new();
-    if kind == 3 || kind == 4 {
-        let (w, _) = super::c13::extra_world(if kind == 3 { "odd" } else { "scale" }, 40);
+    if kind == 3 || kind == 4 || kind == 5 {
+        let (w, _) = super::c13::extra_world(if kind == 3 { "odd" } else if kind == 4 { "scale" } else { "cyclic" }, 40);
         for (i, r) in w.lib.iter().enumerate() {
             // names built with new_unchecked beyond the wire limits cannot be serialised by
             // contract; the store states quantified over hold representable names only
@@ -641,6 +641,40 @@ pub fn run(ctx: &Ctx) {
         });
         ctx.space("queries and responses for every name of the odd and 40-host worlds of C13 (incl. the DNS-SD meta-query name, the root, parents of registered names) x 5 types x 2 classes, plus the hostile-name families, x 5 store kinds (incl. odd-shaped authoritative records: binary labels, a dot inside a label, SRV at 1- and 2-label owners, a record at the root; and 120 records)", wk.len() as u64 * 5, "complete");
         ctx.add_states(wk.len() as u64 * 5);
+    }
+    // a store whose records refer to each other in cycles; every query over its names, each in a
+    // child process (a stack overflow aborts the process and cannot be caught in-process)
+    {
+        let (_, qs) = super::c13::extra_world("cyclic", 0);
+        let mut dg: Vec<Vec<u8>> = Vec::new();
+        for q in qs {
+            let mut p = RefPacket { id: 0, ..Default::default() };
+            p.questions.push(RefQ { name: q.name.clone(), qtype: q.qtype, qclass: q.qclass, unicast: q.unicast });
+            dg.push(p.encode(0));
+        }
+        dg.push(benign_query());
+        let root = ctx.verif_root.clone();
+        let idx: Vec<usize> = (0..dg.len()).collect();
+        par_shards(ctx, &idx, |i, t: &mut Tally| {
+            t.evals += 1;
+            t.nontrivial += 1;
+            t.transitions += 9;
+            let case = json!({"kind": "datagram", "datagram": hex(&dg[*i]), "store": 5, "benign_first": false});
+            match crate::engine::run_isolated(&root, "C14", &format!("cyclic-{}", i), &case) {
+                Ok(sigs) => {
+                    t.outcome(if sigs.is_empty() { "survived" } else { "wedged" });
+                    for (s, d) in sigs {
+                        ctx.violation(finding(s, d, case.clone()));
+                    }
+                }
+                Err(e) => {
+                    t.outcome("process-abort");
+                    ctx.violation(finding("C14|process-abort", format!("handling a query over a store whose records refer to each other in a cycle killed the process (a receive loop would die with it): {}", e), case.clone()));
+                }
+            }
+        });
+        ctx.space("store with PTR / CNAME / SRV reference cycles of length 1, 2 and 3: a query for every owner and parent name x 5 types x 2 classes, each handled in a child process", dg.len() as u64, "complete");
+        ctx.add_states(dg.len() as u64);
     }
     ctx.add_states(data.len() as u64 * 6);
     ctx.space(&format!("short buffers: every string of length <= {} over {{00,80,ff}}", l), n_short as u64, "complete");
